@@ -165,6 +165,9 @@ def _validate_union(datum, schema, named_schemas, parent_ns, raise_errors, optio
     validate as True.
     """
     if isinstance(datum, tuple) and not options.get("disable_tuple_notation"):
+        if len(datum) != 2:
+            # not a (name, value) pair
+            return False
         (name, datum) = datum
         for candidate in schema:
             # Same naming as the writer uses for (name, value) tuples
